@@ -26,15 +26,53 @@ RULE = ("op files over aws_format_standard_log_line (total_length 2..300 exhaust
         "settings, level stores interleaved, failing channel); non-trivial = at least one line produced; distinct by op-file hash. "
         "Background channel: seeded detsched schedules (1-4 senders, 0-6 lines each, clean-up at a random point, recording writer failing every "
         "k-th write), each replayed on the Lean transition system; foreground channel and the no-alloc logger shared by 1-4 threads under the "
-        "same scheduler (oracle only); pipeline logger with a writer failing on scheduled calls")
+        "same scheduler (oracle only), all behind a sink whose every k-th write fails and which then works again (library file writer / "
+        "fwrite of the no-alloc logger); pipeline logger with a writer failing on scheduled calls; subject lists of assorted sizes registered "
+        "as exact-size heap arrays, subject ids at first-1, first, last, last+1, last+2, in unregistered slots and beyond all slots")
 
 LEVELS = [b"NONE", b"FATAL", b"ERROR", b"WARN", b"INFO", b"DEBUG", b"TRACE"]
 DATE_FMTS = ["%a, %d %b %Y %H:%M:%S GMT", "%Y-%m-%dT%H:%M:%SZ", "%Y%m%dT%H%M%SZ"]
-H_SUBJECT_BASE = 14 * 1024
-SUBJECTS = {0: b"aws-c-common", 1: b"task-scheduler", 2: b"thread", 9: b"cbor", H_SUBJECT_BASE: b"", H_SUBJECT_BASE + 1: b"s",
-            H_SUBJECT_BASE + 2: b"harness-subject",
-            H_SUBJECT_BASE + 3: b"a-very-long-subject-name-0123456789-0123456789-0123456789-0123456789-0123456789-0123456789-0123456789",
-            99999: b"Unknown", H_SUBJECT_BASE + 7: b"Unknown"}
+STRIDE, PACKAGE_SLOTS = 1024, 32
+COMMON_SUBJECTS = [b"aws-c-common", b"task-scheduler", b"thread", b"memtrace", b"xml-parser", b"common-io", b"bus", b"test",
+                   b"json-parser", b"cbor"]      # the library's own list in slot 0 (declared to the model by `subjects 0 …`)
+
+
+def spec_subject_name(registry, sid):
+    """independent statement of aws_log_subject_name: the registered entry for first <= id < first + count of a registered
+    slot, "Unknown" for every other id"""
+    slot, idx = divmod(sid, STRIDE)
+    if slot < PACKAGE_SLOTS and slot in registry and idx < len(registry[slot]):
+        return registry[slot][idx]
+    return b"Unknown"
+
+
+def subjects_ops(rng):
+    """registration ops for a case: the library's slot 0 and 1-3 harness lists of assorted sizes"""
+    registry = {0: COMMON_SUBJECTS}
+    for slot in rng.sample(range(1, PACKAGE_SLOTS), rng.randint(1, 3)):
+        count = rng.choice([1, 1, 2, 3, 5, 8, 17])
+        registry[slot] = [bytes(rng.choice(b"abcdefghijklmnopqrstuvwxyz-") for _ in range(rng.choice([0, 1, 4, 15, 15, 40, 101])))
+                          for _ in range(count)]
+    ops = [f"subjects {slot} " + " ".join(hx(n) for n in names) for slot, names in registry.items()]
+    return ops, registry
+
+
+def subject_ids(rng, registry):
+    """ids around every registered list (first-1, first, last, last+1 = count, last+2, end of the slot), in unregistered
+    slots and beyond all slots"""
+    ids = []
+    for slot, names in registry.items():
+        base = slot * STRIDE
+        ids += [base, base + len(names) - 1, base + len(names), base + len(names) + 1, base + STRIDE - 1,
+                base + rng.randrange(len(names)), base + rng.randrange(len(names))]
+        if base:
+            ids.append(base - 1)
+    free = [k for k in range(PACKAGE_SLOTS) if k not in registry]
+    ids += [rng.choice(free) * STRIDE + rng.choice([0, 1, 7]), PACKAGE_SLOTS * STRIDE - 1, PACKAGE_SLOTS * STRIDE,
+            PACKAGE_SLOTS * STRIDE + 3, 99999, (1 << 32) - 1]
+    return ids
+
+
 NOALLOC = 8192          # DESIGN 5.14; the oracle uses the value the source has now (regen), boundaries are generated around both
 _state = {}
 
@@ -184,15 +222,16 @@ def gen_fmt_malformed(rng):
     return Case(ops, {"stream": "fmt-malformed"})
 
 
-def log_op(rng, which, level, msg_len=None, how=None):
-    sid = rng.choice(list(SUBJECTS))
+def log_op(rng, which, level, registry, msg_len=None, how=None):
+    sid = rng.choice(subject_ids(rng, registry))
+    name = spec_subject_name(registry, sid)
     if msg_len is None:
         msg_len = rng.choice([0, 1, rng.randint(0, 60), rng.randint(0, 60), rng.randint(0, 400)])
     how = how or rng.choice(["macro", "cond"])
     shape = rng.randint(0, 4)
     if which == "n":
-        return f"noalloc {level} {sid} {hx(SUBJECTS[sid])} {msg_len} {shape} {how}"
-    return f"pipe {which} {level} {sid} {hx(SUBJECTS[sid])} {msg_len} {shape} {how}"
+        return f"noalloc {level} {sid} {hx(name)} {msg_len} {shape} {how}"
+    return f"pipe {which} {level} {sid} {hx(name)} {msg_len} {shape} {how}"
 
 
 def wfail_op(rng, horizon):
@@ -203,7 +242,8 @@ def wfail_op(rng, horizon):
 
 def gen_gate_exhaustive(rng, which):
     e, tid, ts = env_op(rng)
-    ops = [e, f"init {which} {rng.randint(0, 6)}"]
+    sops, reg = subjects_ops(rng)
+    ops = [e] + sops + [f"init {which} {rng.randint(0, 6)}"]
     if which == "a" and rng.random() < 0.7:
         ops.append(wfail_op(rng, 25))
     for f in range(7):
@@ -211,23 +251,25 @@ def gen_gate_exhaustive(rng, which):
             ops.append(other_thread(rng, e))
         ops.append(f"setlevel {which} {f}")
         for l in range(7):
-            ops.append(log_op(rng, which, l))
+            ops.append(log_op(rng, which, l, reg))
     return Case(ops, {"stream": "gate-exhaustive", "logger": which})
 
 
 def gen_noalloc_sweep(rng, lens):
     e, tid, ts = env_op(rng)
-    ops = [e, "init n 6"]
+    sops, reg = subjects_ops(rng)
+    ops = [e] + sops + ["init n 6"]
     for j, n in enumerate(lens):
         if j == len(lens) // 2:
             ops.append(other_thread(rng, e))
-        ops.append(log_op(rng, "n", rng.randint(0, 6), n))
+        ops.append(log_op(rng, "n", rng.randint(0, 6), reg, n))
     return Case(ops, {"stream": "noalloc-sweep"})
 
 
 def gen_pipe_random(rng, n):
     e, tid, ts = env_op(rng)
-    ops = [e]
+    sops, reg = subjects_ops(rng)
+    ops = [e] + sops
     have = set()
     for it in range(n):
         if it == n // 2:
@@ -244,9 +286,21 @@ def gen_pipe_random(rng, n):
             ops.append(f"setlevel {w} {rng.choice([0, 1, 2, 3, 4, 5, 6, 7, 100])}")
         else:
             big = rng.random() < 0.08
-            ops.append(log_op(rng, w, rng.choice([0, 1, 2, 3, 4, 5, 6, 6, 7, 8]),
+            ops.append(log_op(rng, w, rng.choice([0, 1, 2, 3, 4, 5, 6, 6, 7, 8]), reg,
                               rng.choice([8999, 9000, 8192, rng.randint(8000, 8200), rng.randint(0, 9000)]) if big else None))
     return Case(ops, {"stream": "pipe-random"})
+
+
+def gen_subject_boundaries(rng):
+    """every boundary id of every registered list (and of the subject space) through the pipeline and the no-alloc logger"""
+    e, tid, ts = env_op(rng)
+    sops, reg = subjects_ops(rng)
+    ops = [e] + sops + ["init a 6", "init n 6"]
+    for sid in sorted(set(subject_ids(rng, reg))):
+        name = spec_subject_name(reg, sid)
+        ops.append(f"pipe a {rng.randint(0, 6)} {sid} {hx(name)} {rng.randint(0, 30)} {rng.randint(0, 4)} {rng.choice(['macro', 'cond'])}")
+        ops.append(f"noalloc {rng.randint(0, 6)} {sid} {hx(name)} {rng.randint(0, 30)} {rng.randint(0, 4)} {rng.choice(['macro', 'cond'])}")
+    return Case(ops, {"stream": "subject-boundaries"})
 
 
 def noalloc_lens(rng, tier):
@@ -274,6 +328,7 @@ def gen_cases(rng, tier):
     lens = noalloc_lens(rng, tier)
     for i in range(0, len(lens), 12):
         cases.append(gen_noalloc_sweep(rng, lens[i:i + 12]))
+    cases += [gen_subject_boundaries(rng) for _ in range(40 if q else 600)]
     cases += [gen_pipe_random(rng, 40) for _ in range(400 if q else 6000)]
     return cases
 
@@ -314,6 +369,7 @@ def oracle(case, lines):
         return l
     tid, ts = None, None
     level_of = {}
+    registry = {}
     for op in case.ops:
         t = op.split()
         if t[0] == "env":
@@ -365,6 +421,11 @@ def oracle(case, lines):
             continue
         if t[0] == "wfail":
             continue
+        if t[0] == "subjects":
+            l = nxt()
+            if l is not None and l.startswith("W subjects"):
+                registry[int(t[1])] = [unhx(x) for x in t[2:]]
+            continue
         if t[0] == "setlevel":
             l = nxt()
             if t[1] in level_of:
@@ -375,7 +436,8 @@ def oracle(case, lines):
         if t[0] in ("pipe", "noalloc"):
             which = t[1] if t[0] == "pipe" else "n"
             b = 2 if t[0] == "pipe" else 1
-            level, sid, subject, msg_len, shape = int(t[b]), int(t[b + 1]), unhx(t[b + 2]), int(t[b + 3]), int(t[b + 4])
+            level, sid, msg_len, shape = int(t[b]), int(t[b + 1]), int(t[b + 3]), int(t[b + 4])
+            subject = spec_subject_name(registry, sid)     # the op's hex is the generator's note of the same
             l = nxt()
             if which not in level_of:
                 continue
@@ -460,7 +522,7 @@ def bg_run_lines(rng, n):
         r = rng.random()
         # 1: drain before clean-up, 2: foreground channel, 3: no-alloc logger shared by the threads
         quiesce = 1 if r < 0.15 else (2 if r < 0.3 else (3 if r < 0.5 else 0))
-        wfail = rng.choice([0, 0, 1, 2, 3]) if quiesce != 3 else 0      # every k-th write() of the recording writer fails
+        wfail = rng.choice([0, 0, 1, 2, 3, 4])      # every k-th write to the sink fails, the sink then works again
         delay = rng.choice([0, rng.randint(0, 10), rng.randint(0, 60), rng.randint(0, 150)])
         out.append(f"run {i} {senders} {lines} {delay} {quiesce} {wfail} seed {rng.getrandbits(32)} {rng.choice([0, 30, 70, 90])} {rng.choice([0, 0, 50, 200])}")
     return out
@@ -499,7 +561,7 @@ def na_oracle(cfg, lines):
     """no-alloc logger shared by several threads: exactly one whole line per accepted call in the file, none for
     filtered calls, nothing lost / duplicated / torn, each thread's lines in its call order and with its own thread id"""
     errs = []
-    accepted, filtered, content, tids = {}, [], None, {}
+    accepted, filtered, content, tids, failed, sink_failures = {}, [], None, {}, [], None
     for l in lines:
         if l.startswith("CRASH"):
             errs.append("implementation crashed / sanitizer report: " + l[:600])
@@ -510,10 +572,16 @@ def na_oracle(cfg, lines):
             tids[int(t[2][1:])] = t[3].encode()
         elif l.startswith("O logged "):
             t = l.split()
-            accepted[(int(t[2][1:]), int(t[3]))] = (t[4].encode(), tids.get(int(t[2][1:]), b"?"))
+            key = (int(t[2][1:]), int(t[3]))
+            if t[5] == "rc=OK":
+                accepted[key] = (t[4].encode(), tids.get(key[0], b"?"))
+            else:
+                failed.append(key)      # the logger reported a write failure for this call: its line must not be in the file
         elif l.startswith("O filtered "):
             t = l.split()
             filtered.append((int(t[2][1:]), int(t[3])))
+        elif l.startswith("O sink "):
+            sink_failures = int(l.split("failures=")[1].split()[0])
         elif l.startswith("F "):
             content = unhx(l[2:])
         elif l.startswith("R "):
@@ -524,6 +592,8 @@ def na_oracle(cfg, lines):
                 errs.append("allocator imbalance or mutex misuse: " + l)
     if content is None:
         return errs + ["run did not finish"]
+    if sink_failures is not None and sink_failures != len(failed):
+        errs.append(f"{len(failed)} call(s) reported a write failure but the sink refused {sink_failures} write(s)")
     if len(set(tids.values())) != len(tids):
         errs.append(f"harness: thread ids are not distinct: {tids}")
     if b"\0" in content:
@@ -538,7 +608,7 @@ def na_oracle(cfg, lines):
             continue
         key = (int(m.group(3)), int(m.group(4)))
         if key not in accepted:
-            errs.append(f"line {n}: call {key} was {'filtered' if key in filtered else 'never made'} but is in the file")
+            errs.append(f"line {n}: call {key} was {'filtered' if key in filtered else ('reported as failed' if key in failed else 'never made')} but is in the file")
             continue
         lvl, tid = accepted[key]
         if ln.split(b" - ", 1)[1] != na_text(*key) or m.group(1) != lvl:
@@ -571,6 +641,9 @@ def bg_oracle(cfg, lines):
             errs.append("harness monitor: " + l[2:])
         elif l.startswith("O tid "):
             tids[l.split()[2]] = l.split()[3]
+        elif l.startswith("O sink "):
+            if not l.endswith("match=1"):
+                errs.append("the sink behind the file writer does not hold exactly the lines whose write succeeded: " + l[2:])
         elif l.startswith("O sent "):
             key = tuple(l.split()[2:4])
             sent.append(key)
@@ -810,7 +883,9 @@ MANIFEST = dict(
           "consumer thread, clean-up, spurious wake-ups): FIFO partition of sent lines into written/batch/pending, per-sender order, single "
           "destruction, nothing written after clean-up returns, flush of everything accepted before clean-up, absence of deadlock and of "
           "lost wake-ups; a failing writer does not change ownership (line destroyed exactly once, call succeeds); the no-alloc logger used by "
-          "any number of threads writes exactly the lines the calls formatted (per-call buffer), once each, in call order per thread. Tied to /repo by differential runs of the compiled model against the formatter, the no-alloc logger and a "
+          "any number of threads writes exactly the lines the calls formatted (per-call buffer), once each, in call order per thread, a failed "
+          "fwrite never leaving its mutex locked; the subject lookup (integer skeleton regenerated from logging.c) never reads behind a "
+          "registered list and answers Unknown exactly outside first..first+count-1. Tied to /repo by differential runs of the compiled model against the formatter, the no-alloc logger and a "
           "pipeline logger (frozen clock, all levels x filters, total_length 2..300 exhaustively, messages 0..9000 bytes) with a direct "
           "oracle, and by running the real background channel with 1-4 sender threads under a deterministic scheduler (link-time "
           "interposition of pthread calls), every run's synchronisation events being replayed step by step on the Lean transition system."),
